@@ -1,6 +1,6 @@
 SPECIFICATION Spec
 CONSTANTS
- Mols <- MolsDev
+ Mols <- MCMols
  Dev = "closeLate"
  FixedOrder = TRUE
 INVARIANT RoundTripI
